@@ -80,7 +80,7 @@ def gen_chains(cfg="ChainGen_q.cfg", timeout=600):
 
 def decorate(scs, *, seed, calls_choices=(("invoke",), ("stream",), ("invoke", "stream"), ("stream", "invoke")),
              snode_frac=0.35, strm_branch_frac=0.3, noid_frac=0.0, state_frac=0.0, fail_variants=False, state_variants=False,
-             delay_frac=0.5, echo_frac=0.0, wrap_frac=0.3, rmax_frac=0.0, anyout_frac=0.0, all_paradigms=False):
+             delay_frac=0.5, echo_frac=0.0, wrap_frac=0.3, rmax_frac=0.0, anyout_frac=0.0, all_paradigms=False, nilout_frac=0.0):
     """Secondary dimensions that TLC does not enumerate are spread deterministically (seeded) over the scenarios."""
     rnd = random.Random(seed)
     for i, sc in enumerate(scs):
@@ -143,6 +143,17 @@ def decorate(scs, *, seed, calls_choices=(("invoke",), ("stream",), ("invoke", "
                     inner["state"] = True
                     inner["post"] = rnd.random() < 0.5
                     inner["hmod"] = rnd.random() < 0.5
+        if nilout_frac and sc.get("state") and sc.get("post") and not sc.get("shand") and sc["mode"] in ("pregel", "dag") \
+                and sc.get("lower") != "chain" and rnd.random() < nilout_frac:
+            # nodes declared with output type `any` whose body returns nil; the post-handler supplies the value (it must run for nil too)
+            cand = [n for n in sc["nodes"] if n not in (sc.get("sub") or {}) and n not in sc.get("rerun", []) and n not in sc.get("echo", [])
+                    and n not in sc.get("snodes", []) and not any(f["n"] == n for f in sc.get("fail", []))]
+            sc["nilout"] = [n for n in cand if rnd.random() < 0.5]
+        for inner in (sc.get("sub") or {}).values():
+            # a rerun node rebuilds the input of its aborted attempt from state: its own graph's, or (pstate) the parent's
+            if inner.get("rerun") and not inner.get("state") and not (inner.get("pstate") and sc.get("state")):
+                inner.pop("pstate", None)
+                inner["state"] = True
         if fail_variants and sc.get("fail"):
             # spread the failure kinds TLC does not enumerate: a second failing node in parallel, cancellation from inside a node
             r = rnd.random()
